@@ -1,7 +1,7 @@
 (* C02 - no lost wake-up: Inv4 (ParkInv4Def.v) holds in every reachable state. *)
 From Coq Require Import List ZArith Bool Arith Lia.
 Import ListNotations.
-Require Import MayV.Rt.AtomicDur MayV.Base.BlockerSpec MayV.Rt.ParkModel MayV.Rt.ParkTac MayV.Rt.ParkInv1 MayV.Rt.ParkInv2 MayV.Rt.ParkInv3 MayV.Rt.ParkInv4Def MayV.Rt.ParkInv4a MayV.Rt.ParkInv4b MayV.Rt.ParkInv4c MayV.Rt.ParkInv4d MayV.Rt.ParkInv4e MayV.Rt.ParkInv4f MayV.Rt.ParkInv4g.
+Require Import MayV.Rt.AtomicDur MayV.Base.BlockerSpec MayV.Rt.ParkModel MayV.Rt.ParkTac MayV.Rt.ParkInv1 MayV.Rt.ParkInv2 MayV.Rt.ParkInv3 MayV.Rt.ParkInv4Def MayV.Rt.ParkInv4a MayV.Rt.ParkInv4b MayV.Rt.ParkInv4c MayV.Rt.ParkInv4d MayV.Rt.ParkInv4e MayV.Rt.ParkInv4f MayV.Rt.ParkInv4g MayV.Rt.ParkInv4h MayV.Rt.ParkInv4i.
 Open Scope Z_scope.
 
 
